@@ -224,7 +224,11 @@ impl SegmentedLog {
         if root_dir_fsync {
             // To uphold the guarantees provided by this function we should fsync the directory
             // after a new segment file is created.
+            #[cfg(nomt_verif)]
+            crate::verif::pre(crate::verif::Kind::DirSync, std::os::fd::AsRawFd::as_raw_fd(&*self.root_dir_fd), 0, 0, None)?;
             self.root_dir_fd.sync_all()?;
+            #[cfg(nomt_verif)]
+            crate::verif::post(crate::verif::Kind::DirSync, std::os::fd::AsRawFd::as_raw_fd(&*self.root_dir_fd));
         }
 
         Ok(record_id)
@@ -237,10 +241,14 @@ impl SegmentedLog {
         let new_segment_id = self.gen_segment_id();
         let filename = segment_filename::format(&self.filename_prefix, new_segment_id);
         let path = self.root_dir_path.join(filename);
+        #[cfg(nomt_verif)]
+        crate::verif::pre_path(crate::verif::Kind::Create, &path)?;
         let file = OpenOptions::new()
             .create_new(true)
             .append(true)
             .open(&path)?;
+        #[cfg(nomt_verif)]
+        crate::verif::post_path(crate::verif::Kind::Create, &path);
         let new_segment = Segment {
             id: new_segment_id,
             min,
@@ -309,7 +317,13 @@ impl SegmentedLog {
 
             // Remove the segment file from the file system.
             let filename = segment_filename::format(&self.filename_prefix, oldest_segment.id);
+            #[cfg(nomt_verif)]
+            let verif_path = self.root_dir_path.join(&filename);
+            #[cfg(nomt_verif)]
+            crate::verif::pre_path(crate::verif::Kind::Unlink, &verif_path)?;
             fs::remove_file(self.root_dir_path.join(filename))?;
+            #[cfg(nomt_verif)]
+            crate::verif::post_path(crate::verif::Kind::Unlink, &verif_path);
 
             // Remove the segment from the in-memory list preserving the order.
             self.segments.remove(0);
@@ -360,10 +374,20 @@ impl SegmentedLog {
         while self.segments.len() > seg_index + 1 {
             let filename =
                 segment_filename::format(&self.filename_prefix, self.segments.last().unwrap().id);
+            #[cfg(nomt_verif)]
+            let verif_path = self.root_dir_path.join(&filename);
+            #[cfg(nomt_verif)]
+            crate::verif::pre_path(crate::verif::Kind::Unlink, &verif_path)?;
             fs::remove_file(self.root_dir_path.join(filename))?;
+            #[cfg(nomt_verif)]
+            crate::verif::post_path(crate::verif::Kind::Unlink, &verif_path);
             self.segments.pop();
         }
+        #[cfg(nomt_verif)]
+        crate::verif::pre(crate::verif::Kind::DirSync, std::os::fd::AsRawFd::as_raw_fd(&*self.root_dir_fd), 0, 0, None)?;
         self.root_dir_fd.sync_data()?;
+        #[cfg(nomt_verif)]
+        crate::verif::post(crate::verif::Kind::DirSync, std::os::fd::AsRawFd::as_raw_fd(&*self.root_dir_fd));
 
         if let Some(head_segment_writer) = self.head_segment_writer.take().take() {
             let file = head_segment_writer.into_inner();
@@ -390,7 +414,11 @@ impl SegmentedLog {
         let _ = self.head_segment_writer.take();
 
         for segment in &self.segments {
+            #[cfg(nomt_verif)]
+            crate::verif::pre_path(crate::verif::Kind::Unlink, &segment.path)?;
             fs::remove_file(&segment.path)?;
+            #[cfg(nomt_verif)]
+            crate::verif::post_path(crate::verif::Kind::Unlink, &segment.path);
         }
         self.segments.clear();
         Ok(())
@@ -591,6 +619,8 @@ impl Recovery {
         }
 
         for segment in nonlive_segments {
+            #[cfg(nomt_verif)]
+            crate::verif::pre_path(crate::verif::Kind::Unlink, &segment.path)?;
             fs::remove_file(segment.path)?;
         }
         Ok(live_segments)
@@ -633,8 +663,16 @@ fn truncate_head_segment(
     };
 
     let mut file = OpenOptions::new().append(true).write(true).open(path)?;
+    #[cfg(nomt_verif)]
+    crate::verif::pre(crate::verif::Kind::SetLen, std::os::fd::AsRawFd::as_raw_fd(&file), 0, end, None)?;
     file.set_len(end)?;
+    #[cfg(nomt_verif)]
+    crate::verif::post(crate::verif::Kind::SetLen, std::os::fd::AsRawFd::as_raw_fd(&file));
+    #[cfg(nomt_verif)]
+    crate::verif::pre(crate::verif::Kind::Fsync, std::os::fd::AsRawFd::as_raw_fd(&file), 0, 0, None)?;
     file.sync_data()?;
+    #[cfg(nomt_verif)]
+    crate::verif::post(crate::verif::Kind::Fsync, std::os::fd::AsRawFd::as_raw_fd(&file));
     file.seek(SeekFrom::Start(end))?;
 
     Ok(SegmentFileWriter::new(file, end))
@@ -658,6 +696,8 @@ pub fn open<F>(
 where
     F: FnMut(RecordId, &[u8]) -> anyhow::Result<()>,
 {
+    #[cfg(nomt_verif)]
+    let max_segment_size = crate::verif::segment_size(max_segment_size);
     if start_live.is_nil() ^ end_live.is_nil() {
         return Err(anyhow::anyhow!(
             "Start live and end live must both be nil or both be non-nil, got start: {}, end: {}",
